@@ -31,10 +31,12 @@ static long g_inj;    /* injections that actually happened */
 #define SAFE(stmt) (shim_fail_at = 0, GUARDED(stmt))
 static int g_rc2;
 
+#include "recipes.h"
 typedef struct scen {
     const char *name;
     size_t n;
-    uint64_t xs[600];
+    uint64_t xs[5200];
+    char namebuf[96];
 } scen;
 
 static void mk(scen *s, const char *name, size_t n, int shape) {
@@ -80,8 +82,8 @@ typedef struct outcome {
  * with the shim off (no injection) */
 static outcome run_api(const char *api, const scen *s) {
     outcome o = {0, 0, -1, 0};
-    static uint8_t buf[1 << 16], buf2[1 << 16];
-    static uint64_t ys[600];
+    static uint8_t buf[1 << 18], buf2[1 << 18];
+    static uint64_t ys[5200];
     size_t n = s->n;
     memset(ys, 0x77, sizeof(ys));
     if (!strcmp(api, "DictEncode")) {
@@ -352,7 +354,7 @@ static void bitmap_faults(const char *name, const bstep *prefix, int np, bstep t
 
 int main(int argc, char **argv) {
     if (argc < 4) {
-        fprintf(stderr, "usage: %s shard nshards out\n", argv[0]);
+        fprintf(stderr, "usage: %s shard nshards out [recipes]\n", argv[0]);
         return 2;
     }
     size_t shard = strtoul(argv[1], NULL, 10), nshards = strtoul(argv[2], NULL, 10);
@@ -396,9 +398,42 @@ int main(int argc, char **argv) {
             codec_faults(apis[a], &S[s]);
         }
     }
+    /* every threshold recipe of the adaptive selection tree (Selector.tla):
+     * under an allocation failure the analysis falls back to conservative
+     * estimates, which moves an input across the decision boundaries */
+    if (argc > 4) {
+        FILE *rf = fopen(argv[4], "r");
+        char line[256];
+        static scen R;
+        while (rf && fgets(line, sizeof(line), rf)) {
+            char shape[32];
+            size_t n;
+            long p1, p2, p3, p4;
+            if (sscanf(line, "R %31s %zu %ld %ld %ld %ld", shape, &n, &p1, &p2, &p3, &p4) != 6 || n > 5000 || n < 1) {
+                continue;
+            }
+            if (idx++ % nshards != shard) {
+                continue;
+            }
+            if (!recipe_shape(shape, n, p1, p2, p3, p4, R.xs)) {
+                continue;
+            }
+            snprintf(R.namebuf, sizeof(R.namebuf), "%s/%zu/%ld/%ld/%ld/%ld", shape, n, p1, p2, p3, p4);
+            R.name = R.namebuf;
+            R.n = n;
+            codec_faults("AdaptiveEncodeA", &R);
+            codec_faults("AdaptiveDecodeA", &R);
+            codec_faults("AdaptiveCountUnique", &R);
+        }
+        if (rf) {
+            fclose(rf);
+        }
+    }
     /* bitmap scenarios: state-building prefix, faulted op, follow-up */
     static const bstep fill4096[] = {{"AddRange", 0, 4096, ""}};
     static const bstep fill4097[] = {{"AddRange", 0, 4096, ""}, {"Add", 5000, 0, ""}};
+    static const bstep dense4096[] = {{"AddRange", 0, 4096, ""}, {"Add", 5000, 0, ""}, {"Remove", 5000, 0, ""}};
+    static const bstep fill4095[] = {{"AddRange", 0, 4095, ""}};
     static const bstep runs[] = {{"AddRange", 10000, 20000, ""}};
     static const bstep few[] = {{"Add", 7, 0, ""}, {"Add", 9, 0, ""}};
     static const bstep sixteen[] = {{"AddRange", 100, 116, ""}};
@@ -411,6 +446,13 @@ int main(int argc, char **argv) {
     } B[] = {
         {"array->bitmap", fill4096, 1, {"Add", 4096, 0, ""}},
         {"bitmap->array", fill4097, 2, {"Remove", 5000, 0, ""}},
+        /* both sides of each conversion threshold, in both directions */
+        {"dense 4096 -> 4095", dense4096, 3, {"Remove", 7, 0, ""}},
+        {"dense 4096 remove absent", dense4096, 3, {"Remove", 6000, 0, ""}},
+        {"dense 4096 -> 4097", dense4096, 3, {"Add", 6000, 0, ""}},
+        {"array 4095 -> 4096", fill4095, 1, {"Add", 6000, 0, ""}},
+        {"array 4096 -> 4095", fill4096, 1, {"Remove", 7, 0, ""}},
+        {"dense 4097 -> 4096", fill4097, 2, {"Remove", 7, 0, ""}},
         {"array grow", sixteen, 1, {"Add", 50, 0, ""}},
         {"runs->array/bitmap add", runs, 1, {"Add", 5, 0, ""}},
         {"runs remove", runs, 1, {"Remove", 15000, 0, ""}},
